@@ -354,6 +354,49 @@ def r7_nullable_owners(chk, prog, rule='R7'):
     return total
 
 
+def r10_escaping_lambdas(chk, prog, rule='R10'):
+    """no use after return: a callable that outlives the function that creates it (it is handed to a new-expression /
+    returned / stored in a member - the argument handler keeps such callables until the evaluation) does not capture
+    a local variable or a by-value parameter of that function by reference"""
+    n = 0
+    for f in prog.functions:
+        if f.body is None or '/src/' not in f.file or '/test' in f.file:
+            continue
+        by_value = {p_['name'] for p_ in f.params if not (p_['t'] or '').rstrip().endswith('&')}
+        locals_ = set()
+        for x in f.walk():
+            if x.get('k') == 'DeclStmt':
+                for d in x.get('decls', []):
+                    if not d.get('static') and not (d.get('t') or '').rstrip().endswith('&'):
+                        locals_.add(d['name'])
+        for x in f.walk():
+            if x.get('k') != 'LambdaExpr':
+                continue
+            escapes = False
+            p_ = f.parent(x)
+            while p_ is not None and p_.get('k') not in ('CompoundStmt',):
+                k = p_.get('k')
+                if k in ('CXXNewExpr', 'ReturnStmt'):
+                    escapes = True
+                if k == 'BinaryOperator' and p_.get('op') == '=' and field_name(children(p_)[0]):
+                    escapes = True
+                if k == 'CXXOperatorCallExpr' and p_.get('op') == '=' and len(children(p_)) > 1 and \
+                        field_name(children(p_)[1]):
+                    escapes = True
+                p_ = f.parent(p_)
+            if not escapes:
+                continue
+            n += 1
+            bad = [c_['name'] for c_ in x.get('captures', []) if c_.get('byref') and
+                   c_.get('name') in (by_value | locals_)]
+            chk.check(not bad, rule, f.name, 'a callable that outlives its creating function captures none of its '
+                      'locals / by-value parameters by reference', f.loc(x),
+                      'captured by reference: %s - the callable is evaluated after %s() has returned' % (
+                          ', '.join(bad), f.short))
+    chk.require(n >= 5, 'escaping callables in the analysed units: %d' % n)
+    return n
+
+
 def r8_stream_loops_terminate(chk, prog, rule='R8'):
     """evaluation terminates for every argument source: a loop that is driven by a read from an input stream ends at
     the first read that fails - at the end of the file AND when the stream goes bad (unreadable file, a directory
@@ -422,6 +465,8 @@ def run(chk):
     r7_nullable_owners(chk, prog)
     chk.rule('R8', 'loops driven by a stream read end at the first failed read (termination for every argument file)', 1)
     r8_stream_loops_terminate(chk, prog)
+    chk.rule('R10', 'callables that outlive their creating function capture no local by reference', 5)
+    r10_escaping_lambdas(chk, prog)
     chk.rule('R6', 'ArgListIterator: the cursor invariant (four cases) is established and preserved; every argv[ i] '
              'and word[ j] access is inside', 40)
     from . import c04_cursor
